@@ -111,11 +111,16 @@ let run (f : string list) : string =
   | "own" :: cmds ->
       (* projection of an impl/t_own.c script onto the ownership model (Own.script_ops): kind of each command by its name *)
       let kind c =
-        let w = List.hd (String.split_on_char ' ' c) in
+        let ws = String.split_on_char ' ' c in
+        let w = List.hd ws in
+        let upd = (* path N ctx path val opts [...] : LYD_NEW_PATH_UPDATE = 0x20 *)
+          (w = "path" || w = "path1") && List.length ws > 5
+          && (match int_of_string_opt (List.nth ws 5) with Some o -> o land 0x20 <> 0 | None -> false) in
         if List.mem w ["dup"; "dupmeta"] then 2
+        else if upd || List.mem w ["chg"; "chgmeta"; "chgcanon"; "chgbin"; "anycopy"] then 3
+        else if List.mem w ["val"; "valmod"; "valop"] then 4
         else if List.mem w ["parse"; "parsep"; "parseop"; "term"; "inner"; "list"; "list2"; "any"; "opaq"; "opaq2"; "meta"; "attr"; "path";
-                            "path1"; "diff"; "rev"; "lybrt"; "merge"; "apply"; "dmerge"; "impl"; "val"; "valmod"; "valop"; "ins"; "unlink";
-                            "anycopy"; "chg"; "chgmeta"; "chgcanon"; "chgbin"; "lys"] then 0
+                            "path1"; "diff"; "rev"; "lybrt"; "merge"; "apply"; "dmerge"; "impl"; "ins"; "unlink"; "lys"] then 0
         else 1 in
       let (d, e) = own_script_delta (List.map (fun c -> n_of_int (kind c)) cmds) in
       "d" ^ dec_of_n d ^ ":e" ^ dec_of_n e
